@@ -12,6 +12,7 @@ import (
 	"sort"
 	"strings"
 	"sync/atomic"
+	"verif/internal/envrun"
 
 	"github.com/google/jsonschema-go/jsonschema"
 
@@ -382,6 +383,9 @@ func Run(r *ev.Run) {
 		}
 		r.Set("fresh_process_digests_compared", n)
 		r.Set("result_table_digest", mine)
+	}
+	if r.OnlyKey == "" || true {
+		envrun.Explore(r, "ENV", "c14env", "env", 16)
 	}
 }
 
